@@ -745,7 +745,9 @@ pub fn expected_dump_tagged(sites: &[Site], flt: &Filt, log: &[(usize, program::
             FeCall::TryClose(id) => *handles.entry(*id).or_default() -= 1,
             FeCall::Event { k, parent: ptok, vals } => {
                 if enabled(*k, &stack) {
-                    let pc = nearest(resolve(ptok, &stack), &cap, &parent);
+                    // an explicit parent that is closed by now is no parent at all
+                    let explicit_gone = ptok.starts_with("p:") && resolve(ptok, &stack).map_or(false, |id| closed(id, &handles, &all_stacks, &parent));
+                    let pc = if explicit_gone { None } else { nearest(resolve(ptok, &stack), &cap, &parent) };
                     let idx = events.len();
                     events.push(Evn { k: *k, vals: values(*k, vals), par: pc });
                     if let Some(p) = pc {
@@ -786,6 +788,41 @@ impl Suite for Capture {
             leak_enters: false,
         };
         let mut prog = program::gen_program(rng, &gcfg);
+        if idx % 60 == 43 {
+            // a "caterpillar": 9..16 levels, each with a span that is descended into and a sibling
+            // created after it (so that every level still has an unvisited sibling while a walk is at
+            // the bottom), events on the siblings
+            let depth = rng.range(9, 16);
+            let mut ops = vec![];
+            let mut nh = 0usize;
+            let mut entered = vec![];
+            for _ in 0..depth {
+                ops.push(POp::New { k: 0, parent: program::PParent::Ctx, vals: vec![] });
+                let a = nh;
+                nh += 1;
+                for _ in 0..rng.range(1, 2) {
+                    ops.push(POp::New { k: 0, parent: program::PParent::Ctx, vals: vec![] });
+                    let b = nh;
+                    nh += 1;
+                    if rng.chance(1, 2) {
+                        ops.push(POp::Evt { k: 1, parent: program::PParent::Handle(b), vals: vec![] });
+                    }
+                }
+                ops.push(POp::Ent(a));
+                entered.push(a);
+            }
+            ops.push(POp::Evt { k: 1, parent: program::PParent::Ctx, vals: vec![] });
+            for a in entered.into_iter().rev() {
+                ops.push(POp::Ext(a));
+            }
+            let mut span_site = crate::gen::site(rng, Some(true), 1);
+            let mut event_site = crate::gen::site(rng, Some(false), 1);
+            (span_site.level, event_site.level) = (2, 2);
+            prog = program::Program { sites: vec![span_site, event_site], ops, malformed: false };
+            let mut lines = vec!["layers 1".to_owned(), format!("lfilter 0 {}", Filt::All.tok())];
+            lines.extend(prog.lines());
+            return lines;
+        }
         if idx % 60 == 13 {
             // deep nesting: a chain of well over a hundred spans, each entered inside the previous
             // one (a recursive `#[instrument]` function), with an event at the bottom
@@ -886,6 +923,37 @@ impl Suite for Capture {
                 }
                 if !dropped.is_empty() && !live.is_empty() && rng.chance(1, 6) {
                     extra.push((pos + 1, POp::Fol(*rng.pick(&live), *rng.pick(&dropped))));
+                }
+                // ... and events whose explicit parent is the id of a handle that was already dropped
+                // (`event!(parent: id, ..)` with an id kept after the span is gone): if the span is
+                // closed by then the event has no parent
+                if !dropped.is_empty() && rng.chance(1, 8) {
+                    if let Some(k) = prog.sites.iter().position(|x| !x.is_span) {
+                        extra.push((pos + 1, POp::Evt { k, parent: PParent::Handle(*rng.pick(&dropped)), vals: vec![] }));
+                    }
+                }
+            }
+            for (pos, op) in extra.into_iter().rev() {
+                prog.ops.insert(pos, op);
+            }
+        }
+        if focus == "C16" || rng.chance(1, 8) {
+            // unbalanced exits: `Dispatch::exit` on a span that is not entered (the raw subscriber API
+            // permits it, and a receiver relays a guest's `SpanExited` whether or not it was entered)
+            let mut live: Vec<usize> = vec![];
+            let mut nh = 0usize;
+            let mut extra: Vec<(usize, POp)> = vec![];
+            for (pos, op) in prog.ops.iter().enumerate() {
+                match op {
+                    POp::New { .. } | POp::Cln(_) => {
+                        live.push(nh);
+                        nh += 1;
+                    }
+                    POp::Drp(s) => live.retain(|h| h != s),
+                    _ => {}
+                }
+                if !live.is_empty() && rng.chance(1, 10) {
+                    extra.push((pos + 1, POp::Ext(*rng.pick(&live))));
                 }
             }
             for (pos, op) in extra.into_iter().rev() {
